@@ -43,9 +43,7 @@ fn get_decode(ft: FatType) {
     kani::cover!(cls == 1);
     kani::cover!(cls == 2);
     kani::cover!(cls == 3 && v != spec::eoc_written(w(ft))); // an end-of-chain marker the library itself never writes
-    if ft == FatType::Fat32 {
-        kani::cover!(spec::raw32_full(&data, c) >> 28 != 0 && cls == 1); // reserved high bits set on a link
-    }
+    kani::cover!(ft != FatType::Fat32 || (spec::raw32_full(&data, c) >> 28 != 0 && cls == 1)); // reserved high bits set on a link
 }
 /// C08: FAT entry decoding equals the specification's classification for every raw value (all end-of-chain
 /// markers, bad-cluster mark, FAT32 high nibble ignored).
